@@ -17,6 +17,18 @@ pub enum Rt {
     Multi(usize),
 }
 
+/// How the input reaches the writer.
+#[derive(Clone, Copy, Debug, Serialize, Deserialize, PartialEq, Eq, Hash, PartialOrd, Ord, Default)]
+pub enum SrcKind {
+    /// in-memory iterator (BedParserStreamingIterator::wrap_infallible_iter)
+    #[default]
+    Iter,
+    /// bedGraph / BED text through the serial file source
+    SerialText,
+    /// a real file, index_chroms and the per-chromosome parallel source
+    ParallelFile,
+}
+
 #[derive(Clone, Debug, Serialize, Deserialize, PartialEq, Eq, Hash)]
 pub struct Opts {
     pub compress: bool,
@@ -27,6 +39,8 @@ pub struct Opts {
     pub rt: Rt,
     pub chan: usize,
     pub two_pass: bool,
+    #[serde(default)]
+    pub src: SrcKind,
 }
 
 impl Opts {
@@ -40,6 +54,7 @@ impl Opts {
             rt: Rt::Current,
             chan: 100,
             two_pass: false,
+            src: SrcKind::Iter,
         }
     }
     pub fn manual(&self) -> Option<&Vec<u32>> {
@@ -298,6 +313,7 @@ pub fn covering_opts(quick: bool) -> Vec<Opts> {
                         rt: rts[n % 4],
                         chan: chans[(n / 2) % 3],
                         two_pass,
+                        src: [SrcKind::Iter, SrcKind::SerialText, SrcKind::ParallelFile][(n / 5) % 3],
                     });
                     n += 1;
                 }
@@ -329,6 +345,7 @@ pub fn small_opts() -> Vec<Opts> {
                     rt: rts[n % 4],
                     chan: chans[n % 3],
                     two_pass,
+                    src: [SrcKind::Iter, SrcKind::SerialText, SrcKind::ParallelFile, SrcKind::Iter][(n / 2) % 4],
                 });
                 n += 1;
             }
@@ -357,6 +374,7 @@ pub fn full_opts(quick: bool) -> Vec<Opts> {
                         for &rt in rts {
                             for &chan in chans {
                                 for two_pass in [false, true] {
+                                    let src = [SrcKind::Iter, SrcKind::ParallelFile, SrcKind::SerialText][v.len() % 3];
                                     v.push(Opts {
                                         compress,
                                         ips,
@@ -366,6 +384,7 @@ pub fn full_opts(quick: bool) -> Vec<Opts> {
                                         rt,
                                         chan,
                                         two_pass,
+                                        src,
                                     });
                                 }
                             }
